@@ -207,6 +207,8 @@ let run_line (line : string) : string =
       (match stream with
        | "SINK" -> run_sink id rest
        | "ENC" -> run_enc id rest
+       | "DLV" -> (match Str.bounded_split (Str.regexp_string " ") rest 2 with
+                   | [_mode; r2] -> run_enc id r2 | _ -> id ^ " bad-case")
        | "DEC" -> run_dec id rest
        | "CNT" -> run_cnt id rest
        | "RICE" -> run_rice id rest
